@@ -969,7 +969,76 @@ def clause_negotiated_per_connection(R, prefix, fields):
     for field in fields:
         blocks = sorted(set(bb for (b, bb, j, dst, rv, s, final) in f.field_stores(RUNTIME, field) if b.name == hcode.name and final))
         ok = bool(blocks) and hcode.must_pass([0], oks, via_blocks=blocks)[0]
+        # ... and what is stored does not start from the value the field had on the previous connection
+        stale = None
+        for (b, bb, j, dst, rv, s, final) in f.field_stores(RUNTIME, field):
+            if b.name == hcode.name and final:
+                t = b.rvalue_term(rv)
+                from ..core import walk as _walk
+                if any(isinstance(x, tuple) and x[0] == "field" and x[2] == field and x[3] == RUNTIME for x in _walk(t)):
+                    stale = s["span"]
+        if stale is not None:
+            ok = False
         R.ob("%s/per-connection/%s" % (prefix, field), ok,
              "every successful handshake stores RuntimeState::%s itself (CONNACK value or the protocol default): a value "
-             "negotiated on an earlier connection must not survive a CONNACK that is silent about it" % field,
-             where=hcode.line(blocks[0]) if blocks else hb.span)
+             "negotiated on an earlier connection must not survive a CONNACK that is silent about it%s"
+             % (field, "" if stale is None else " (the stored value is computed from the field's previous value)"),
+             where=stale or (hcode.line(blocks[0]) if blocks else hb.span))
+
+
+REASON = "reason_codes::ReasonCode"
+
+
+def clause_reason_predicates(R, prefix):
+    """Every acknowledgement handler decides "accepted / refused" with ReasonCode::success / failed / as_result.  MQTT 5
+    (2.4): a reason code below 0x80 is a success, 0x80 and above a failure.  `success` is tabulated over every variant of
+    the enum (its discriminant is the wire value): the comparison it makes must be true exactly for the variants below
+    0x80; `failed` is its negation; `as_result` is Ok exactly on the success edge."""
+    from ..core import peel as _peel, show as _show
+    f = R.f
+    sb = method(f, REASON, "success")
+    R.touch(sb)
+    t = _peel(sb.local_term(0))
+    ops = {"Lt": lambda a, b: a < b, "Le": lambda a, b: a <= b, "Gt": lambda a, b: a > b, "Ge": lambda a, b: a >= b,
+           "Eq": lambda a, b: a == b, "Ne": lambda a, b: a != b}
+    neg = False
+    if t[0] == "un" and t[1] == "Not":
+        t, neg = _peel(t[2]), True
+    table_ok, why = False, "not a comparison of the code's wire value with a constant (%s)" % _show(t)[:80]
+    if t[0] == "bin" and t[1] in ops:
+        a, b = _peel(t[2]), _peel(t[3])
+        cst, val, flip = None, None, False
+        if b[0] == "const" and isinstance(b[2], int):
+            cst, val = b[2], a
+        elif a[0] == "const" and isinstance(a[2], int):
+            cst, val, flip = a[2], b, True
+        rooted = val is not None and chain(val, extra=("Into::into", "into", "From::from", "from", "Clone::clone", "clone"))[0] == ("param", "self")
+        if cst is not None and rooted:
+            bad = []
+            for v in f.adts[REASON]["variants"]:
+                d = v["discr"]
+                got = ops[t[1]](cst, d) if flip else ops[t[1]](d, cst)
+                got = (not got) if neg else got
+                if got != (d < 0x80):
+                    bad.append("%s (0x%02x)" % (v["name"], d))
+            table_ok = not bad
+            why = "" if not bad else "misclassified: %s" % ", ".join(bad[:4])
+    R.ob("%s/success-table" % prefix, table_ok,
+         "ReasonCode::success is true exactly for the codes below 0x80 (tabulated over all %d variants)%s"
+         % (len(f.adts[REASON]["variants"]), "" if table_ok else " — " + why), where=sb.span)
+    fb = method(f, REASON, "failed")
+    ft = _peel(fb.local_term(0))
+    okf = ft[0] == "un" and ft[1] == "Not" and _peel(ft[2])[0] == "call" and _peel(ft[2])[2] == sb.name
+    R.ob("%s/failed-is-not-success" % prefix, okf, "ReasonCode::failed is !success (found %s)" % _show(ft)[:80], where=fb.span)
+    ab = method(f, REASON, "as_result")
+    oka = False
+    for bb in ab.switches:
+        si = ab.switch_info(bb)
+        sj = _peel(si["subject"])
+        if sj[0] == "call" and sj[2] == sb.name and si["edges"].get(True) is not None and si["edges"].get(False) is not None:
+            def vals(start, avoid):
+                return [ab.rvalue_term(s["rv"]) for x in ab.reach([start], avoid=[avoid]) for s in ab.blocks[x]["stmts"]
+                        if s["k"] == "assign" and s["dst"]["l"] == 0 and not s["dst"]["proj"] and "agg" in s["rv"]]
+            tv, fv = vals(si["edges"][True], si["edges"][False]), vals(si["edges"][False], si["edges"][True])
+            oka = bool(tv) and bool(fv) and all(v[3] == "Ok" for v in tv) and all(v[3] == "Err" for v in fv)
+    R.ob("%s/as_result" % prefix, oka, "ReasonCode::as_result is Ok exactly when success() holds", where=ab.span)
